@@ -210,7 +210,9 @@ def main():
         if v["backend"] == "kani" and tier is not None:
             try:
                 pb = vf.kani_playback(v["harness"]["name"], v["harness"].get("package"), v["harness"].get("flags"))
-                witness = pb.get("test")
+                witness = pb.get("test") if pb.get("replayed") else None
+                if pb.get("test") and not pb.get("replayed"):
+                    v["output"] = pb["test"] + "\n" + v["output"]
             except Exception as e:  # noqa
                 witness = None
         if v["backend"] == "verus":
